@@ -14,9 +14,11 @@ class PathDumper(FileDumper):
     def write_file_to_output(self, filename, path):
         is_descriptor = path == 'datapackage.json'
         path = os.path.join(self.out_path, path)
-        # Avoid rewriting existing data files (their path holds the hash of their content);
-        # the descriptor is not content-addressed: it describes this dump and is always written
-        if self.add_filehash_to_path and not is_descriptor and os.path.exists(path):
+        # Avoid rewriting existing data files whose path holds the hash of their content (the hash
+        # is only put into the path when it is computed at all); the descriptor is not
+        # content-addressed: it describes this dump and is always written
+        content_addressed = self.add_filehash_to_path and self.resource_hash
+        if content_addressed and not is_descriptor and os.path.exists(path):
             return
         path_part = os.path.dirname(path)
         PathDumper.__makedirs(path_part)
